@@ -200,6 +200,21 @@ def kernel_cases(ctx):
             cf = [cf[i] if (i % 8) + (i // 8) < 3 else 0 for i in range(64)]
         q = [rng.range(1, qm) for _ in range(64)]
         cases.append(("idctint %s | %s" % (" ".join(map(str, cf)), " ".join(map(str, q))), "k-idctint"))
+    # zero-AC shortcuts: blocks whose only non-zero AC coefficients lie in ONE row r / ONE column c, every r, c in 1..7 (and
+    # DC only), for the accurate, fast and reduced-size IDCTs under SSE2, AVX2 and C
+    for cmd, qscale in (("idctint", 1), ("idctfst", 4), ("idct4x4", 1), ("idct2x2", 1)):
+        for line_kind in ("row", "col"):
+            for idx in range(0, 8):
+                for rep in range(ctx.n(2, 6)):
+                    cf = [0] * 64
+                    cf[0] = rng.range(-200, 200)
+                    cells = [idx * 8 + j for j in range(8)] if line_kind == "row" else [j * 8 + idx for j in range(8)]
+                    picks = cells if rep == 0 else rng.shuffle(cells)[:rng.range(1, 3)]
+                    for cpos in picks:
+                        if cpos != 0:
+                            cf[cpos] = rng.choice([1, -1, 3, rng.range(-60, 60) or 2])
+                    q = [qscale * rng.range(1, 12) for _ in range(64)]
+                    cases.append(("%s %s | %s" % (cmd, " ".join(map(str, cf)), " ".join(map(str, q))), "k-%s-one-%s" % (cmd, line_kind)))
     # accurate forward DCT on level-shifted samples (always inside the proved boundary) and on 16-bit garbage (model only)
     for r in range(ctx.n(120, 1200)):
         amp = 128 if r % 8 else rng.choice([2000, 8000, 32767])
@@ -315,6 +330,8 @@ def kernel_sig(line, stream):
         if any(abs(a * b) >= 32768 for a, b in zip(cf, qq)):
             return "idct-out-of-range-coefficients:kernel-ifast"
         return "ifast-operand-ge-8192:kernel-idct"
+    if t[0] in ("idct4x4", "idct2x2"):
+        return "kernel:" + t[0]
     if t[0] == "idctint":
         return "kernel:idctint:inside-boundary" if stream.endswith(":W0") else "idct-out-of-range-coefficients:kernel-islow"
     if t[0] == "fdctint":
@@ -374,7 +391,7 @@ def do_kernel(ctx, exe, drv, cases, isas):
                 ctx.violation("kernel level: %s differs from the C function under %s: %s" % (cmd if cmd != "bulk" else line, isa, detail[:300]),
                               {"mode": "kernel", "isa": isa, "case": line[:6000], "result": res[:2000]},
                               signature=kernel_sig(line, stream + ":" + wflag))
-            if ml is not None and cmd != "bulk":
+            if ml is not None and cmd not in ("bulk", "idct4x4", "idct2x2"):     # reduced-size IDCTs: no lane model yet
                 nmodel += 1
                 if ml[i].strip() != res.strip():
                     ndis[(cmd, isa)] = ndis.get((cmd, isa), 0) + 1
